@@ -1,6 +1,7 @@
 package main
 
 import (
+	"reflect"
 	"go/ast"
 	"go/token"
 	"go/types"
@@ -459,20 +460,11 @@ func checkDetachPartition(c *Ctx) {
 			lf, lbody := fkLoopCtx(cc)
 			linfo := lf.Info()
 			okCopy := false
-			for _, st := range lbody {
-				ast.Inspect(st, func(m ast.Node) bool {
-					as, ok := m.(*ast.AssignStmt)
-					if !ok || len(as.Lhs) != 1 {
-						return true
-					}
-					if isField(linfo, as.Lhs[0], pSchema, "Table", "ForeignKeys") {
-						if id, ok := as.Rhs[0].(*ast.Ident); ok {
-							// the variable holding only self references: appended under fk.RefTable == change.T
-							okCopy = linfo.ObjectOf(id) != nil && !isNilIdent(linfo, id) && onlySelfRefsAppended(linfo, lbody, linfo.ObjectOf(id))
-						}
-					}
-					return true
-				})
+			for _, rhs := range fkAssignments(c, linfo, lbody) {
+				if id, ok := ast.Unparen(rhs).(*ast.Ident); ok {
+					// the variable holding only self references: appended under fk.RefTable == change.T
+					okCopy = linfo.ObjectOf(id) != nil && !isNilIdent(linfo, id) && onlySelfRefsAppended(linfo, lbody, linfo.ObjectOf(id))
+				}
 			}
 			c.Check("R04c", "detachReferences|AddTable copy keeps only self references", cc.Pos(), okCopy, "the planned copy of a detached table must have its ForeignKeys replaced by the self-referencing ones (an FK kept inline points at a table that may not exist yet)")
 			// each FK goes to exactly one of the two lists
@@ -482,13 +474,10 @@ func checkDetachPartition(c *Ctx) {
 			lf, lbody := fkLoopCtx(cc)
 			linfo := lf.Info()
 			okNil := false
-			for _, st := range lbody {
-				ast.Inspect(st, func(m ast.Node) bool {
-					if as, ok := m.(*ast.AssignStmt); ok && len(as.Lhs) == 1 && isField(linfo, as.Lhs[0], pSchema, "Table", "ForeignKeys") && isNilIdent(linfo, as.Rhs[0]) {
-						okNil = true
-					}
-					return true
-				})
+			for _, rhs := range fkAssignments(c, linfo, lbody) {
+				if isNilIdent(linfo, rhs) {
+					okNil = true
+				}
 			}
 			c.Check("R04c", "detachReferences|DropTable copy has no foreign keys", cc.Pos(), okNil, "the planned copy of a dropped table must have its ForeignKeys cleared")
 		case "ModifyTable":
@@ -503,6 +492,7 @@ func checkDetachPartition(c *Ctx) {
 type kindResolver struct {
 	c    *Ctx
 	busy map[string]bool
+	pms  map[*ast.FuncDecl]map[ast.Node]ast.Node
 }
 
 func (kr *kindResolver) kinds(fi *FuncInfo, e ast.Expr, depth int) map[string]bool {
@@ -572,6 +562,39 @@ func (kr *kindResolver) kinds(fi *FuncInfo, e ast.Expr, depth int) map[string]bo
 			if n := namedOf(info.TypeOf(x)); n != nil && n.Obj().Pkg() != nil && n.Obj().Pkg().Path() == pSchema {
 				if _, isIface := n.Underlying().(*types.Interface); !isIface {
 					out[n.Obj().Name()] = true
+				} else {
+					// an interface-typed variable used in the true branch of `if _, ok := v.(*T); ok`: its kind is T
+					if kr.pms == nil {
+						kr.pms = map[*ast.FuncDecl]map[ast.Node]ast.Node{}
+					}
+					pm := kr.pms[fi.Decl]
+					if pm == nil {
+						pm = parentMap(fi.Decl)
+						kr.pms[fi.Decl] = pm
+					}
+					for p := pm[x]; p != nil; p = pm[p] {
+						ifs, ok := p.(*ast.IfStmt)
+						if !ok || !(ifs.Body.Pos() <= x.Pos() && x.End() <= ifs.Body.End()) {
+							continue
+						}
+						for _, part := range []ast.Node{ifs.Init, ifs.Cond} {
+							if part == nil || reflect.ValueOf(part).IsNil() {
+								continue
+							}
+							ast.Inspect(part, func(k ast.Node) bool {
+								ta, ok := k.(*ast.TypeAssertExpr)
+								if !ok || ta.Type == nil {
+									return true
+								}
+								if id, ok := ast.Unparen(ta.X).(*ast.Ident); ok && info.ObjectOf(id) == obj {
+									if tn := namedOf(info.TypeOf(ta.Type)); tn != nil && tn.Obj().Pkg() != nil && tn.Obj().Pkg().Path() == pSchema {
+										out[tn.Obj().Name()] = true
+									}
+								}
+								return true
+							})
+						}
+					}
 				}
 			}
 		}
@@ -1177,4 +1200,58 @@ func orderingHelperOK(c *Ctx, fn *types.Func, ai int) bool {
 		return true
 	})
 	return good && nSorted > 0
+}
+
+// fkAssignments lists the values assigned to a Table's ForeignKeys field in the statements: direct stores
+// (t.ForeignKeys = v) and calls of a package-local helper that stores one of its parameters into the
+// ForeignKeys field of a table it returns (withForeignKeys(t, v) → v).
+func fkAssignments(c *Ctx, info *types.Info, body []ast.Stmt) []ast.Expr {
+	var out []ast.Expr
+	for _, st := range body {
+		ast.Inspect(st, func(m ast.Node) bool {
+			switch x := m.(type) {
+			case *ast.AssignStmt:
+				if len(x.Lhs) == 1 && len(x.Rhs) == 1 && isField(info, x.Lhs[0], pSchema, "Table", "ForeignKeys") {
+					out = append(out, x.Rhs[0])
+				}
+			case *ast.CallExpr:
+				fn := calleeOf(info, x)
+				if fn == nil || fn.Pkg() == nil || !strings.HasPrefix(fn.Pkg().Path(), modRoot) {
+					return true
+				}
+				hf := c.FuncInfoOf(fn)
+				if hf == nil || hf.Decl.Body == nil || hf.Decl.Type.Params == nil {
+					return true
+				}
+				hinfo := hf.Info()
+				var params []types.Object
+				for _, fld := range hf.Decl.Type.Params.List {
+					for _, nm := range fld.Names {
+						params = append(params, hinfo.ObjectOf(nm))
+					}
+				}
+				if len(params) != len(x.Args) {
+					return true
+				}
+				ast.Inspect(hf.Decl.Body, func(k ast.Node) bool {
+					as, ok := k.(*ast.AssignStmt)
+					if !ok || len(as.Lhs) != 1 || len(as.Rhs) != 1 || !isField(hinfo, as.Lhs[0], pSchema, "Table", "ForeignKeys") {
+						return true
+					}
+					if id, ok := ast.Unparen(as.Rhs[0]).(*ast.Ident); ok {
+						for pi, po := range params {
+							if hinfo.ObjectOf(id) == po {
+								out = append(out, x.Args[pi])
+							}
+						}
+					} else if isNilIdent(hinfo, as.Rhs[0]) {
+						out = append(out, as.Rhs[0])
+					}
+					return true
+				})
+			}
+			return true
+		})
+	}
+	return out
 }
